@@ -36,85 +36,206 @@ def _strip_cast(node):
     return node
 
 
-def _chain_args(call) -> List[str]:
-    if not (isinstance(call, ast.Call) and ast.unparse(call.func) in ("collections.ChainMap", "ChainMap")):
-        raise TranslationError("Activation.__init__: self.functions is not a ChainMap(...)")
-    out = []
-    for a in call.args:
-        a = _strip_cast(a)
-        if not isinstance(a, ast.Name):
-            raise TranslationError(f"ChainMap argument {ast.unparse(a)}")
-        out.append(a.id)
-    return out
+class _Raised(Exception):
+    pass
 
 
-def _functions_assign(body) -> ast.expr:
-    vals = [st.value for st in body if isinstance(st, ast.Assign) and len(st.targets) == 1
-            and ast.unparse(st.targets[0]) == "self.functions"]
-    if len(vals) != 1:
-        raise TranslationError("Activation.__init__: expected exactly one assignment to self.functions per branch")
-    return vals[0]
+class ChainExec:
+    """Symbolic execution of the part of `Activation.__init__` that builds `self.functions`, once for each way of
+    supplying functions (kind = list / dict / none).  Values are symbolic maps:
+
+        ("base",)        the module-level `base_functions`
+        ("param",)       the mapping the caller supplied (the object itself, not a copy)
+        ("named", attr)  a NEW dict `{f.<attr>: f for f in functions}` (comprehension, `dict(generator)`, or a loop filling
+                         an empty dict; later entries replace earlier ones in all three)
+        ("empty",)       a new empty dict
+        ("chain", [m…])  `collections.ChainMap(m…)` / `<chain>.new_child(m)`
+
+    Tests on `functions` (`isinstance(functions, Sequence|Mapping)`, `functions is [not] None`, `not`, `and`, `or`) are
+    decided by the kind, so the order of the branches, `elif` vs. early `if`, and where the ChainMap is built do not
+    matter.  Statements that do not mention a function table are not part of this reading; any other statement that
+    does (an `.update(…)`, a write through the chain, an unknown call) is outside the subset: TranslationError."""
+
+    def __init__(self, kind: str):
+        self.kind = kind
+        self.env = {"functions": ("param",), "base_functions": ("base",)}
+        self.self_functions = None
+
+    def fail(self, node, why="outside the subset"):
+        raise TranslationError(f"Activation.__init__ ({self.kind}): {why}: {ast.unparse(node)[:90]}")
+
+    def cond(self, t) -> bool:
+        if isinstance(t, ast.UnaryOp) and isinstance(t.op, ast.Not):
+            return not self.cond(t.operand)
+        if isinstance(t, ast.BoolOp):
+            vals = [self.cond(v) for v in t.values]
+            return all(vals) if isinstance(t.op, ast.And) else any(vals)
+        if (isinstance(t, ast.Call) and _is_name(t.func, "isinstance") and len(t.args) == 2 and _is_name(t.args[0], "functions")):
+            classes = t.args[1].elts if isinstance(t.args[1], ast.Tuple) else [t.args[1]]
+            res = False
+            for c in classes:
+                n = ast.unparse(c).split(".")[-1]
+                if n in ("Sequence", "list", "tuple", "List", "Tuple"):
+                    res = res or self.kind == "list"
+                elif n in ("Mapping", "dict", "Dict", "MutableMapping"):
+                    res = res or self.kind == "dict"
+                else:
+                    self.fail(t, "unknown class in isinstance")
+            return res
+        if (isinstance(t, ast.Compare) and len(t.ops) == 1 and _is_name(t.left, "functions")
+                and isinstance(t.comparators[0], ast.Constant) and t.comparators[0].value is None):
+            if isinstance(t.ops[0], ast.Is):
+                return self.kind == "none"
+            if isinstance(t.ops[0], ast.IsNot):
+                return self.kind != "none"
+        self.fail(t, "test not decided by the way functions are supplied")
+
+    def functions_iter(self, node) -> bool:
+        """`functions` / `functions or []` as the iterable of a comprehension or loop"""
+        node = _strip_cast(node)
+        if _is_name(node, "functions"):
+            return True
+        return (isinstance(node, ast.BoolOp) and isinstance(node.op, ast.Or) and len(node.values) == 2
+                and _is_name(_strip_cast(node.values[0]), "functions")
+                and isinstance(node.values[1], (ast.List, ast.Tuple)) and not node.values[1].elts)
+
+    def named(self, node, gen, key, val):
+        if not (isinstance(gen.target, ast.Name) and not gen.ifs and not gen.is_async and self.functions_iter(gen.iter)
+                and isinstance(key, ast.Attribute) and _is_name(key.value, gen.target.id) and _is_name(val, gen.target.id)):
+            self.fail(node, "unexpected comprehension")
+        if self.kind != "list":
+            self.fail(node, "a comprehension over `functions` outside the list case")
+        return ("named", key.attr)
+
+    def sym(self, node):
+        node = _strip_cast(node)
+        if isinstance(node, ast.Name):
+            if node.id not in self.env:
+                self.fail(node, "unknown name")
+            return self.env[node.id]
+        if isinstance(node, ast.Attribute) and ast.unparse(node) == "self.functions":
+            if self.self_functions is None:
+                self.fail(node, "self.functions read before it is set")
+            return self.self_functions
+        if isinstance(node, ast.Dict) and not node.keys:
+            return ("empty",)
+        if isinstance(node, ast.DictComp) and len(node.generators) == 1:
+            return self.named(node, node.generators[0], node.key, node.value)
+        if isinstance(node, ast.IfExp):
+            return self.sym(node.body if self.cond(node.test) else node.orelse)
+        if isinstance(node, ast.Call) and not node.keywords:
+            fn = ast.unparse(node.func)
+            if fn == "dict" and not node.args:
+                return ("empty",)
+            if (fn == "dict" and len(node.args) == 1 and isinstance(node.args[0], ast.GeneratorExp) and len(node.args[0].generators) == 1
+                    and isinstance(node.args[0].elt, ast.Tuple) and len(node.args[0].elt.elts) == 2):
+                k, v = node.args[0].elt.elts
+                return self.named(node, node.args[0].generators[0], k, v)
+            if fn in ("collections.ChainMap", "ChainMap"):
+                maps = [self.sym(a) for a in node.args]
+                if any(m[0] == "chain" for m in maps) or not maps:
+                    self.fail(node, "ChainMap of a ChainMap / of nothing")
+                return ("chain", maps)
+            if isinstance(node.func, ast.Attribute) and node.func.attr == "new_child" and len(node.args) <= 1:
+                base = self.sym(node.func.value)
+                if base[0] != "chain":
+                    self.fail(node, "new_child of something that is no ChainMap")
+                front = self.sym(node.args[0]) if node.args else ("empty",)
+                if front[0] == "chain":
+                    self.fail(node)
+                return ("chain", [front] + list(base[1]))
+        self.fail(node, "unknown value")
+
+    def relevant(self, st) -> bool:
+        names = {n.id for n in ast.walk(st) if isinstance(n, ast.Name)} | \
+                {ast.unparse(n) for n in ast.walk(st) if isinstance(n, ast.Attribute)}
+        return bool(names & (set(self.env) | {"self.functions"}))
+
+    @staticmethod
+    def is_logging(st) -> bool:
+        """`logger.debug(fmt, name, …)`: plain names only, nothing is called or written"""
+        if not (isinstance(st, ast.Expr) and isinstance(st.value, ast.Call) and isinstance(st.value.func, ast.Attribute)):
+            return False
+        f = st.value.func
+        return (ast.unparse(f.value) in ("logger", "self.logger") and f.attr in ("debug", "info", "warning", "error")
+                and all(isinstance(a, (ast.Name, ast.Constant)) for a in st.value.args) and not st.value.keywords)
+
+    def run(self, body):
+        for st in body:
+            if self.is_logging(st):
+                continue
+            if not self.relevant(st):
+                # a new empty dict bound to a local may become a function table later
+                if isinstance(st, (ast.Assign, ast.AnnAssign)) and st.value is not None:
+                    tgt = st.target if isinstance(st, ast.AnnAssign) else (st.targets[0] if len(st.targets) == 1 else None)
+                    v = st.value
+                    if isinstance(tgt, ast.Name) and ((isinstance(v, ast.Dict) and not v.keys) or ast.unparse(v) == "dict()"):
+                        self.env[tgt.id] = ("empty",)
+                continue
+            if isinstance(st, ast.AnnAssign) and st.value is None:
+                continue
+            if isinstance(st, ast.Pass):
+                continue
+            if isinstance(st, (ast.Assign, ast.AnnAssign)):
+                tgt = st.target if isinstance(st, ast.AnnAssign) else (st.targets[0] if len(st.targets) == 1 else None)
+                if isinstance(tgt, ast.Name) and tgt.id not in ("functions", "base_functions"):
+                    self.env[tgt.id] = self.sym(st.value)
+                elif tgt is not None and ast.unparse(tgt) == "self.functions":
+                    self.self_functions = self.sym(st.value)
+                else:
+                    self.fail(st)
+                continue
+            if isinstance(st, ast.If):
+                self.run(st.body if self.cond(st.test) else st.orelse)
+                continue
+            if isinstance(st, ast.Raise):
+                raise _Raised()
+            if isinstance(st, ast.For):
+                # for f in functions: X[f.attr] = f        with X a new empty dict
+                ok = (isinstance(st.target, ast.Name) and not st.orelse and len(st.body) == 1 and self.functions_iter(st.iter)
+                      and isinstance(st.body[0], ast.Assign) and len(st.body[0].targets) == 1)
+                if ok:
+                    tgt, val = st.body[0].targets[0], st.body[0].value
+                    ok = (isinstance(tgt, ast.Subscript) and isinstance(tgt.value, ast.Name) and isinstance(tgt.slice, ast.Attribute)
+                          and _is_name(tgt.slice.value, st.target.id) and _is_name(val, st.target.id)
+                          and self.env.get(tgt.value.id) == ("empty",))
+                if not ok:
+                    self.fail(st)
+                if self.kind == "list":
+                    self.env[tgt.value.id] = ("named", tgt.slice.attr)
+                elif self.kind == "dict":
+                    self.fail(st, "loop over a mapping")
+                continue
+            self.fail(st)
 
 
 def activation_chain(ev: ast.Module):
     init = find_func(find_class(ev, "Activation").body, "__init__")
-    ladder = [st for st in init.body if isinstance(st, ast.If) and "functions" in ast.unparse(st.test)]
-    if len(ladder) != 1:
-        raise TranslationError("Activation.__init__: expected one if-ladder on `functions`")
-    node = ladder[0]
-    branches = {}
-    while True:
-        test = ast.unparse(node.test)
-        if test == "isinstance(functions, Sequence)":
-            kind = "list"
-        elif test == "isinstance(functions, Mapping)":
-            kind = "dict"
-        elif test == "functions is None":
-            kind = "none"
-        else:
-            raise TranslationError(f"Activation.__init__: unexpected test {test}")
-        branches[kind] = node.body
-        if len(node.orelse) == 1 and isinstance(node.orelse[0], ast.If):
-            node = node.orelse[0]
-        else:
-            tail = node.orelse
-            break
-    if not (len(tail) == 1 and isinstance(tail[0], ast.Raise)):
-        raise TranslationError("Activation.__init__: the ladder does not end in `raise`")
-    if set(branches) != {"list", "dict", "none"}:
-        raise TranslationError(f"Activation.__init__: branches {sorted(branches)}")
-    # the list branch: local_functions = {f.__name__: f for f in functions or []}
-    key_attr = None
-    local_name = None
-    for st in branches["list"]:
-        tgt, val = None, None
-        if isinstance(st, ast.AnnAssign):
-            tgt, val = st.target, st.value
-        elif isinstance(st, ast.Assign) and len(st.targets) == 1:
-            tgt, val = st.targets[0], st.value
-        if isinstance(val, ast.DictComp) and isinstance(tgt, ast.Name):
-            gen = val.generators[0]
-            if (len(val.generators) == 1 and not gen.ifs and isinstance(gen.target, ast.Name)
-                    and isinstance(val.key, ast.Attribute) and _is_name(val.key.value, gen.target.id)
-                    and _is_name(val.value, gen.target.id)
-                    and ast.unparse(gen.iter) in ("functions or []", "functions")):
-                key_attr, local_name = val.key.attr, tgt.id
-            else:
-                raise TranslationError("Activation.__init__: unexpected dict comprehension " + ast.unparse(val))
+    chains, key_attr = {}, None
+    for kind in ("list", "dict", "none"):
+        ex = ChainExec(kind)
+        try:
+            ex.run(init.body)
+        except _Raised:
+            raise TranslationError(f"Activation.__init__: raises when functions are supplied as {kind}")
+        sf = ex.self_functions
+        if sf is None or sf[0] != "chain":
+            raise TranslationError(f"Activation.__init__ ({kind}): self.functions is not a ChainMap(...)")
+        names = []
+        for m in sf[1]:
+            if m[0] == "named":
+                key_attr = m[1] if key_attr in (None, m[1]) else "<mixed>"
+                names.append("local_functions")
+            elif m[0] == "param":
+                names.append("functions")
+            elif m[0] == "base":
+                names.append("base_functions")
+            # a new empty dict in the chain binds nothing: dropped
+        if kind == "none" and "functions" in names:
+            raise TranslationError("Activation.__init__ (none): None used as a map")
+        chains[kind] = names
     if key_attr is None:
-        # the same thing written as a loop: `local = {}` / `for f in functions or []: local[f.__name__] = f`
-        for st in branches["list"]:
-            if (isinstance(st, ast.For) and isinstance(st.target, ast.Name) and not st.orelse and len(st.body) == 1
-                    and ast.unparse(st.iter) in ("functions or []", "functions")
-                    and isinstance(st.body[0], ast.Assign) and len(st.body[0].targets) == 1):
-                tgt, val = st.body[0].targets[0], st.body[0].value
-                if (isinstance(tgt, ast.Subscript) and isinstance(tgt.value, ast.Name) and isinstance(tgt.slice, ast.Attribute)
-                        and _is_name(tgt.slice.value, st.target.id) and _is_name(val, st.target.id)):
-                    key_attr, local_name = tgt.slice.attr, tgt.value.id
-    if key_attr is None:
-        raise TranslationError("Activation.__init__: no `{f.__name__: f for f in functions}` in the list branch")
-    chains = {k: _chain_args(_functions_assign(b)) for k, b in branches.items()}
-    chains["list"] = ["local_functions" if n == local_name else n for n in chains["list"]]
+        raise TranslationError("Activation.__init__: no `{f.__name__: f for f in functions}` in the list case")
     return key_attr, chains
 
 
@@ -180,22 +301,288 @@ def _returns_error_checks(fn: ast.FunctionDef) -> List[str]:
     return out
 
 
+ARGS, ELEM_CHECK = "ARGS", "args[*]"
+
+
+def _is_err_test(node, var: str) -> bool:
+    """isinstance(<var>, CELEvalError)"""
+    return (isinstance(node, ast.Call) and _is_name(node.func, "isinstance") and len(node.args) == 2 and not node.keywords
+            and _is_name(node.args[0], var) and _is_name(node.args[1], "CELEvalError"))
+
+
+def _returns(body, pred) -> bool:
+    return len(body) == 1 and isinstance(body[0], ast.Return) and body[0].value is not None and pred(body[0].value)
+
+
+class CallRule:
+    """Symbolic reading of the straight-line code that applies a bound function: `Evaluator.function_eval`,
+    `Evaluator.method_eval` and the closure of `host_function`.
+
+    The statements are read in execution order and normalised to the events the model knows:
+
+      lookup                 `function = <activation>.resolve_function(<name>)` inside `try … except KeyError`
+      check <param>          `if isinstance(<param>, CELEvalError): return <param>`           (if / elif / early return + else)
+      check args[*]          "the first argument that is a CELEvalError is the result", written as a `for` loop, as
+                             `next((a for a in ARGS if isinstance(a, CELEvalError)), None)` + `if x is not None: return x`,
+                             as a list comprehension + `if errs: return errs[0]`, or as `if any(…): return next(…)`
+      apply [a, …, *args]    `return function(a, …, *ARGS)` (or `r = function(…)` … `return r`), inside `try … except`
+    where ARGS is the argument list `exprlist or []` (through `cast`, `list(…)`, local aliases of any name).
+    Docstrings, bare annotations and logger calls are skipped.  ANY other statement (a cache lookup, a second
+    application, a rebinding of `function`, a loop, …) is outside the subset: TranslationError — the check then has no
+    bridge and searches for a failing input."""
+
+    def __init__(self, where: str, params: List[str], args_param: str, args_is_list: bool = False):
+        self.where = where
+        self.env = {p: p for p in params}
+        self.args_param = args_param
+        if args_is_list:                      # `*args` of a closure: already the argument list
+            self.env[args_param] = ARGS
+        self.checks: List[str] = []
+        self.lookup_caught: List[str] = []
+        self.apply_caught: List[str] = []
+        self.apply_args = None
+        self.looked_up = False
+        self.done = False                     # a statement that always returns was read
+
+    def fail(self, node, why="statement outside the subset"):
+        raise TranslationError(f"{self.where}: {why}: {ast.unparse(node)[:90]}")
+
+    # ---- expressions --------------------------------------------------------------------------
+    def canon(self, node):
+        """ARGS / a parameter name / a tagged local, or None"""
+        node = _strip_cast(node)
+        if isinstance(node, ast.Name):
+            return self.env.get(node.id)
+        if isinstance(node, ast.BoolOp) and isinstance(node.op, ast.Or) and len(node.values) == 2:
+            a, b = node.values
+            if self.canon(a) == self.args_param and isinstance(b, (ast.List, ast.Tuple)) and not b.elts:
+                return ARGS
+        if (isinstance(node, ast.Call) and isinstance(node.func, ast.Name) and node.func.id in ("list", "tuple")
+                and len(node.args) == 1 and not node.keywords and self.canon(node.args[0]) == ARGS):
+            return ARGS
+        return None
+
+    def err_filter(self, node, kinds):
+        """`(v for v in ARGS if isinstance(v, CELEvalError))` (generator expression / list comprehension)"""
+        if not isinstance(node, kinds) or len(node.generators) != 1:
+            return False
+        g = node.generators[0]
+        return (isinstance(g.target, ast.Name) and not g.is_async and self.canon(g.iter) == ARGS and len(g.ifs) == 1
+                and _is_err_test(g.ifs[0], g.target.id) and _is_name(node.elt, g.target.id))
+
+    def first_err(self, node, need_default: bool):
+        """`next(<error filter>[, None])`"""
+        if not (isinstance(node, ast.Call) and _is_name(node.func, "next") and not node.keywords and node.args):
+            return False
+        if not self.err_filter(node.args[0], (ast.GeneratorExp,)):
+            return False
+        if need_default:
+            return len(node.args) == 2 and isinstance(node.args[1], ast.Constant) and node.args[1].value is None
+        return len(node.args) in (1, 2)
+
+    def any_err(self, node):
+        """`any(isinstance(v, CELEvalError) for v in ARGS)`"""
+        if not (isinstance(node, ast.Call) and _is_name(node.func, "any") and len(node.args) == 1 and not node.keywords
+                and isinstance(node.args[0], ast.GeneratorExp) and len(node.args[0].generators) == 1):
+            return False
+        g = node.args[0].generators[0]
+        return (isinstance(g.target, ast.Name) and not g.ifs and self.canon(g.iter) == ARGS
+                and _is_err_test(node.args[0].elt, g.target.id))
+
+    def application(self, node):
+        """`function(a, …, *ARGS)` -> ['a', …, '*args'] or None"""
+        if not (isinstance(node, ast.Call) and _is_name(node.func, "function") and not node.keywords):
+            return None
+        out = []
+        for a in node.args:
+            if isinstance(a, ast.Starred):
+                if self.canon(a.value) != ARGS:
+                    self.fail(node, "application to something else than the evaluated arguments")
+                out.append("*args")
+            else:
+                c = self.canon(a)
+                if c is None or c == ARGS or c.startswith("#"):
+                    self.fail(node, "application to something else than the evaluated arguments")
+                out.append(c)
+        return out
+
+    def is_logging(self, st) -> bool:
+        if not (isinstance(st, ast.Expr) and isinstance(st.value, ast.Call)):
+            return False
+        f = st.value.func
+        ok = isinstance(f, ast.Attribute) and ast.unparse(f.value) in ("self.logger", "logger") and \
+            f.attr in ("debug", "info", "warning", "error", "exception", "log")
+        return ok and not any(isinstance(n, (ast.Call, ast.NamedExpr, ast.Await, ast.Yield)) for a in st.value.args for n in ast.walk(a))
+
+    # ---- statements ---------------------------------------------------------------------------
+    def run(self, body):
+        body = list(body)
+        while body:
+            st = body.pop(0)
+            if self.done:
+                self.fail(st, "statement after the application")
+            if isinstance(st, ast.Expr) and isinstance(st.value, ast.Constant) and isinstance(st.value.value, str):
+                continue
+            if isinstance(st, ast.AnnAssign) and st.value is None and isinstance(st.target, ast.Name):
+                continue
+            if isinstance(st, ast.Pass) or self.is_logging(st):
+                continue
+            if isinstance(st, ast.Try):
+                self.try_(st)
+                continue
+            if isinstance(st, (ast.Assign, ast.AnnAssign)):
+                self.assign(st)
+                continue
+            if isinstance(st, ast.For):
+                self.for_(st)
+                continue
+            if isinstance(st, ast.If):
+                self.if_(st, body)
+                continue
+            if isinstance(st, ast.Return):
+                self.return_(st)
+                continue
+            self.fail(st)
+
+    def try_(self, st: ast.Try):
+        if st.orelse or st.finalbody:
+            self.fail(st, "try with else/finally")
+        for h in st.handlers:
+            if not any(isinstance(x, ast.Return) and x.value is not None for x in h.body):
+                self.fail(h, "a handler does not return a value")
+        if not self.looked_up:
+            # the lookup: `function = <…>.resolve_function(<…>)`
+            stmts = [x for x in st.body if not self.is_logging(x)]
+            ok = (len(stmts) == 1 and isinstance(stmts[0], ast.Assign) and len(stmts[0].targets) == 1
+                  and _is_name(stmts[0].targets[0], "function") and isinstance(stmts[0].value, ast.Call)
+                  and isinstance(stmts[0].value.func, ast.Attribute) and stmts[0].value.func.attr == "resolve_function"
+                  and len(stmts[0].value.args) == 1)
+            if not ok:
+                self.fail(st, "the first try block is not the lookup `function = ….resolve_function(name)`")
+            self.looked_up = True
+            self.lookup_caught = _caught(st)
+            return
+        if self.apply_caught:
+            self.fail(st, "more than one try block after the lookup")
+        self.apply_caught = _caught(st)
+        self.in_apply = True
+        self.run(st.body)
+        if self.apply_args is None:
+            self.fail(st, "the second try block does not apply `function`")
+
+    def assign(self, st):
+        tgt = st.target if isinstance(st, ast.AnnAssign) else (st.targets[0] if len(st.targets) == 1 else None)
+        if not isinstance(tgt, ast.Name) or tgt.id in ("function", "self"):
+            self.fail(st)
+        v = st.value
+        if self.canon(v) == ARGS:
+            self.env[tgt.id] = ARGS
+        elif self.first_err(v, need_default=True):
+            self.env[tgt.id] = "#first"
+        elif self.err_filter(v, (ast.ListComp,)):
+            self.env[tgt.id] = "#errors"
+        elif self.application(v) is not None:
+            self.apply(v, self.application(v))
+            self.env[tgt.id] = "#result"
+        else:
+            self.fail(st)
+
+    def apply(self, node, args):
+        if self.apply_args is not None:
+            self.fail(node, "`function` is applied more than once")
+        if not self.looked_up:
+            self.fail(node, "application before the lookup")
+        self.apply_args = args
+
+    def for_(self, st: ast.For):
+        ok = (isinstance(st.target, ast.Name) and not st.orelse and self.canon(st.iter) == ARGS and len(st.body) == 1
+              and isinstance(st.body[0], ast.If) and not st.body[0].orelse and _is_err_test(st.body[0].test, st.target.id)
+              and _returns(st.body[0].body, lambda r: _is_name(r, st.target.id)))
+        if not ok:
+            self.fail(st)
+        self.check(ELEM_CHECK)
+
+    def check(self, what: str):
+        if self.apply_args is None:          # a check after the application cannot prevent it
+            self.checks.append(what)
+
+    def if_(self, st: ast.If, rest: list):
+        t = st.test
+        what = None
+        if (isinstance(t, ast.Call) and _is_name(t.func, "isinstance") and len(t.args) == 2 and isinstance(t.args[0], ast.Name)
+                and _is_name(t.args[1], "CELEvalError")):
+            c = self.env.get(t.args[0].id)
+            if c and not c.startswith("#") and c != ARGS and _returns(st.body, lambda r: _is_name(r, t.args[0].id)):
+                what = c
+        elif (isinstance(t, ast.Compare) and len(t.ops) == 1 and isinstance(t.ops[0], ast.IsNot) and isinstance(t.left, ast.Name)
+              and isinstance(t.comparators[0], ast.Constant) and t.comparators[0].value is None
+              and self.env.get(t.left.id) == "#first" and _returns(st.body, lambda r: _is_name(r, t.left.id))):
+            what = ELEM_CHECK
+        elif (isinstance(t, ast.Name) and self.env.get(t.id) == "#errors"
+              and _returns(st.body, lambda r: isinstance(r, ast.Subscript) and _is_name(r.value, t.id)
+                           and isinstance(r.slice, ast.Constant) and r.slice.value == 0)):
+            what = ELEM_CHECK
+        elif self.any_err(t) and _returns(st.body, lambda r: self.first_err(r, need_default=False)):
+            what = ELEM_CHECK
+        if what is None:
+            self.fail(st)
+        self.check(what)
+        # `else:` / `elif` after a branch that returns is the continuation
+        rest[0:0] = list(st.orelse)
+
+    def return_(self, st: ast.Return):
+        v = st.value
+        if v is None:
+            self.fail(st)
+        if isinstance(v, ast.Name) and self.env.get(v.id) == "#result":
+            self.done = True
+            return
+        # `return x if x is not None else function(*args)`
+        if (isinstance(v, ast.IfExp) and isinstance(v.test, ast.Compare) and len(v.test.ops) == 1
+                and isinstance(v.test.ops[0], ast.IsNot) and isinstance(v.test.left, ast.Name)
+                and isinstance(v.test.comparators[0], ast.Constant) and v.test.comparators[0].value is None
+                and self.env.get(v.test.left.id) == "#first" and _is_name(v.body, v.test.left.id)):
+            self.check(ELEM_CHECK)
+            v = v.orelse
+        a = self.application(v)
+        if a is None:
+            self.fail(st)
+        self.apply(v, a)
+        self.done = True
+
+
 def eval_rule(ev: ast.Module, name: str):
     fn = find_func(find_class(ev, "Evaluator").body, name)
-    tries = _try_blocks(fn)
-    if len(tries) != 2:
-        raise TranslationError(f"{name}: expected two try blocks (lookup, application), found {len(tries)}")
-    lookup, apply_ = tries
-    if "resolve_function" not in ast.unparse(lookup.body):
-        raise TranslationError(f"{name}: the first try block does not call resolve_function")
-    if not any(isinstance(n, ast.Call) and _is_name(n.func, "function") for st in apply_.body for n in ast.walk(st)):
-        raise TranslationError(f"{name}: the second try block does not apply `function`")
-    # each handler must *return* a CELEvalError value
-    for tr in tries:
-        for h in tr.handlers:
-            if not any(isinstance(st, ast.Return) for st in h.body):
-                raise TranslationError(f"{name}: a handler does not return a value")
-    return _caught(lookup), _caught(apply_), _returns_error_checks(fn)
+    params = [a.arg for a in fn.args.args if a.arg != "self"]
+    if "exprlist" not in params:
+        raise TranslationError(f"{name}: no parameter `exprlist`")
+    w = CallRule(name, params, "exprlist")
+    w.run(fn.body)
+    if not (w.looked_up and w.apply_args is not None and w.done):
+        raise TranslationError(f"{name}: lookup / application not found")
+    return w.lookup_caught, w.apply_caught, w.checks, w.apply_args
+
+
+def host_function_rule(ev: ast.Module):
+    """`host_function(activation, name)`: `function = activation.resolve_function(name)` and a closure
+    `def checked(*args)` that returns the first erroneous argument, else `function(*args)`"""
+    hf = find_func(ev.body, "host_function")
+    stmts = [s for s in hf.body if not (isinstance(s, ast.Expr) and isinstance(s.value, ast.Constant))]
+    if not (len(stmts) == 3 and isinstance(stmts[0], ast.Assign) and _is_name(stmts[0].targets[0], "function")
+            and ast.unparse(stmts[0].value) == "activation.resolve_function(name)"
+            and isinstance(stmts[1], ast.FunctionDef) and isinstance(stmts[2], ast.Return)
+            and _is_name(stmts[2].value, stmts[1].name)):
+        raise TranslationError("host_function: expected `function = activation.resolve_function(name)`, a closure, `return <closure>`")
+    inner = stmts[1]
+    a = inner.args
+    if a.args or a.kwonlyargs or a.kwarg or a.posonlyargs or a.vararg is None or inner.decorator_list:
+        raise TranslationError("host_function: the closure does not take exactly `*args`")
+    w = CallRule("host_function", [a.vararg.arg], a.vararg.arg, args_is_list=True)
+    w.looked_up = True
+    w.run(inner.body)
+    if not (w.apply_args is not None and w.done):
+        raise TranslationError("host_function: the closure does not apply `function`")
+    return w.checks, w.apply_args
 
 
 def exprlist_first_error(ev: ast.Module) -> bool:
@@ -218,8 +605,17 @@ def macro_names(ev: ast.Module, cls: str) -> List[str]:
 def func_name_facts(ev: ast.Module):
     fn = find_func(find_class(ev, "Phase1Transpiler").body, "func_name")
     src = ast.unparse(fn)
-    identity = any(isinstance(n, ast.Compare) and len(n.ops) == 1 and isinstance(n.ops[0], ast.Is)
-                   and _is_name(n.comparators[0], "func") for n in ast.walk(fn))
+    # dotted text is returned only under a guard that is exactly ONE identity comparison with the resolved object
+    # (`target is func` / `func is target`); a weaker guard (`==`, `… or …`, `callable(…)`) is not the identity check
+    def pure_identity(t) -> bool:
+        return (isinstance(t, ast.Compare) and len(t.ops) == 1 and isinstance(t.ops[0], ast.Is)
+                and isinstance(t.left, ast.Name) and isinstance(t.comparators[0], ast.Name)
+                and "func" in (t.left.id, t.comparators[0].id) and t.left.id != t.comparators[0].id)
+    guards = [n for n in ast.walk(fn) if isinstance(n, ast.If)
+              and any(isinstance(x, ast.Return) and isinstance(x.value, ast.Name) for x in n.body)]
+    plain_returns = [n for n in ast.walk(fn) if isinstance(n, ast.Return) and isinstance(n.value, ast.Name)]
+    identity = (bool(guards) and all(pure_identity(g.test) for g in guards)
+                and len(plain_returns) == sum(1 for g in guards for x in g.body if isinstance(x, ast.Return)))
     texts = [ast.unparse(n) for n in ast.walk(fn) if isinstance(n, ast.Return) and isinstance(n.value, ast.JoinedStr)]
     call_fallback = any("celpy.evaluation.host_function(activation, " in t for t in texts)
     op_fallback = any("activation.resolve_function(" in t for t in texts)
@@ -228,10 +624,8 @@ def func_name_facts(ev: ast.Module):
              if isinstance(n, ast.Call) and ast.unparse(n.func) == "self.func_name" and n.args
              and ast.unparse(n.args[0]) in ("property_name_token.value", "op")]
     uses_call_flag = len(sites) >= 3 and all("call=True" in ast.unparse(n) for n in sites)
-    hf = find_func(ev.body, "host_function")
-    checks = "resolve_function(name)" in ast.unparse(hf) and any(
-        isinstance(n, ast.For) and _returns_error_checks(ast.FunctionDef(name="x", args=None, body=n.body, decorator_list=[], lineno=0))
-        for n in ast.walk(hf))
+    hchecks, happly = host_function_rule(ev)
+    checks = hchecks == [ELEM_CHECK] and happly == ["*args"]
     return identity, call_fallback, op_fallback, unbound, uses_call_flag, checks
 
 
@@ -283,10 +677,11 @@ def gen_funcs() -> str:
     out.append(f"def resolveFunctionIsChainLookup : Bool := {b(rets == ['self.functions[name]'])}")
     out.append("def baseWrites : List String := " + lean_list([lean_str(h) for h in base_writes()]))
     for rule in ("function_eval", "method_eval"):
-        look, app, checks = eval_rule(ev, rule)
+        look, app, checks, applied = eval_rule(ev, rule)
         out.append(f"def {rule}_lookupCaught : List Exc := " + lean_list([lean_exc(c) for c in look]))
         out.append(f"def {rule}_applyCaught : List Exc := " + lean_list([lean_exc(c) for c in app]))
         out.append(f"def {rule}_errorChecks : List String := " + lean_list([lean_str(c) for c in checks]))
+        out.append(f"def {rule}_appliedTo : List String := " + lean_list([lean_str(c) for c in applied]))
     out.append(f"def exprlistReturnsFirstError : Bool := {b(exprlist_first_error(ev))}")
     res = find_func(ev.body, "result")
     tries = [s for s in res.body if isinstance(s, ast.Try)]
